@@ -301,7 +301,7 @@ func phiStep(lp *loop, p *ssa.Phi) (int64, bool) {
 			continue
 		}
 		b, ok := p.Edges[i].(*ssa.BinOp)
-		if !ok || b.Op != token.ADD || b.X != ssa.Value(p) {
+		if !ok || (b.Op != token.ADD && b.Op != token.SUB) || b.X != ssa.Value(p) {
 			return 0, false
 		}
 		c, ok := b.Y.(*ssa.Const)
@@ -309,6 +309,9 @@ func phiStep(lp *loop, p *ssa.Phi) (int64, bool) {
 			return 0, false
 		}
 		v := c.Int64()
+		if b.Op == token.SUB {
+			v = -v // k-- is k - 1
+		}
 		if found && v != step {
 			return 0, false
 		}
@@ -322,6 +325,9 @@ func phiStep(lp *loop, p *ssa.Phi) (int64, bool) {
 func (e *Engine) unrollable(s *State, f *Frame, lp *loop) bool {
 	if len(e.contracts.loopInvariants(e, f.fn, lp.ordinal)) > 0 {
 		return false
+	}
+	if e.concreteCounterLoop(s, f, lp) {
+		return true
 	}
 	for _, in := range lp.header.Instrs {
 		b, ok := in.(*ssa.BinOp)
@@ -902,4 +908,59 @@ func (e *Engine) refSlots(t types.Type) []bool {
 		return out
 	}
 	return make([]bool, len(e.layout(t)))
+}
+
+// concreteCounterLoop: a counter loop written by hand (for i := a; i < b; i++ / for k := n-1; k >= 0; k--)
+// whose counter starts at a concrete value, moves by a constant step and is compared with a concrete
+// bound, with at most 8 iterations: it is executed iteration by iteration like a range loop over a
+// concrete slice.
+func (e *Engine) concreteCounterLoop(s *State, f *Frame, lp *loop) bool {
+	from := f.block
+	for _, in := range lp.header.Instrs {
+		b, ok := in.(*ssa.BinOp)
+		if !ok {
+			continue
+		}
+		switch b.Op {
+		case token.LSS, token.LEQ, token.GTR, token.GEQ:
+		default:
+			continue
+		}
+		for _, side := range [][2]ssa.Value{{b.X, b.Y}, {b.Y, b.X}} {
+			p, ok := side[0].(*ssa.Phi)
+			if !ok || p.Block() != lp.header {
+				continue
+			}
+			step, ok := phiStep(lp, p)
+			if !ok || step == 0 {
+				continue
+			}
+			var init *Term
+			for i, pred := range lp.header.Preds {
+				if pred == from {
+					init = e.get(s, p.Edges[i])[0]
+				}
+			}
+			var bound *Term
+			if v, ok := f.regs[side[1]]; ok {
+				bound = v[0]
+			} else if c, ok := side[1].(*ssa.Const); ok {
+				bound = e.constValue(c)[0]
+			}
+			if init == nil || bound == nil || init.K != KInt || bound.K != KInt {
+				continue
+			}
+			d := bound.I - init.I
+			if d < 0 {
+				d = -d
+			}
+			if step < 0 {
+				step = -step
+			}
+			if d/step <= 8 {
+				return true
+			}
+		}
+	}
+	return false
 }
